@@ -1697,7 +1697,11 @@ Definition stable_rd {A} (r r' : rd A) (x : list N) : Prop :=
   | RErr e => if is_need_more e then True else r' = RErr e
   end.
 
-Ltac stab := idtac.
+Ltac stab_fin :=
+  cbn [qnone andb]; rewrite ?andb_true_r, ?andb_false_r; cbv iota; try reflexivity;
+  try (match goal with |- context [is_need_more ?e] => destruct (is_need_more e) end;
+       cbv iota; reflexivity).
+Ltac stab := try unfold stable_rd; stab_fin.
 Lemma decode_int_loop_stable : forall bs k s r x,
   stable_rd (decode_int_loop k s r bs) (decode_int_loop k s r (bs ++ x)) x.
 Proof.
@@ -1763,6 +1767,8 @@ Definition stable_l (r r' : lres) (bs x : list N) : Prop :=
   | LPanic => r' = LPanic
   end.
 
+Ltac stab ::= try unfold stable_l; try unfold stable_rd; stab_fin.
+
 Lemma decode_literal_stable hd t bs index x :
   stable_l (decode_literal hd t bs index) (decode_literal hd t (bs ++ x) index) bs x.
 Proof.
@@ -1807,6 +1813,8 @@ Definition stable_s (r r' : step_res) (bs x : list N) : Prop :=
   | SErr e l q => if is_need_more e && qnone q then l = bs else r' = SErr e (l ++ x) q
   | SPanic => r' = SPanic
   end.
+
+Ltac stab ::= try unfold stable_s; try unfold stable_l; try unfold stable_rd; stab_fin.
 
 Lemma decode_step_stable hd cr d ty bs x :
   stable_s (decode_step hd cr d ty bs) (decode_step hd cr d ty (bs ++ x)) bs x.
@@ -1909,6 +1917,16 @@ Proof. unfold decode. apply decode_loop_no_fuel. lia. Qed.
 Lemma run_nil hd cr d : decode_run hd cr d [] = mk_dresult [] VOk d [] QNone.
 Proof. reflexivity. Qed.
 
+Lemma decode_loop_S hd fuel cr d ty t :
+  decode_loop hd (S fuel) cr d (ty :: t) =
+  match decode_step hd cr d ty (ty :: t) with
+  | SField f d' rest => prepend [f] (decode_loop hd fuel false d' rest)
+  | SUpdate d' rest => decode_loop hd fuel cr d' rest
+  | SErr e l q => mk_dresult [] (VErr e) d l q
+  | SPanic => mk_dresult [] VPanic d (ty :: t) QNone
+  end.
+Proof. reflexivity. Qed.
+
 Lemma run_cons hd cr d ty t :
   decode_run hd cr d (ty :: t) =
   match decode_step hd cr d ty (ty :: t) with
@@ -1918,14 +1936,14 @@ Lemma run_cons hd cr d ty t :
   | SPanic => mk_dresult [] VPanic d (ty :: t) QNone
   end.
 Proof.
-  unfold decode_run. cbn [decode_loop length].
+  unfold decode_run at 1. change (length (ty :: t)) with (S (length t)). rewrite decode_loop_S.
   pose proof (step_suffix hd cr d ty (ty :: t)) as Hs.
   destruct (decode_step hd cr d ty (ty :: t)) as [f d' rest|d' rest|e l q|]; try reflexivity.
   - destruct Hs as (pre & E & Hne). pose proof (suffix_shorter pre rest Hne) as Hl.
-    rewrite <- E in Hl. cbn [length] in Hl.
+    rewrite <- E in Hl. cbn [length] in Hl. unfold decode_run.
     rewrite (loop_fuel hd (S (length t)) (S (length rest)) false d' rest) by lia. reflexivity.
   - destruct Hs as (pre & E & Hne). pose proof (suffix_shorter pre rest Hne) as Hl.
-    rewrite <- E in Hl. cbn [length] in Hl.
+    rewrite <- E in Hl. cbn [length] in Hl. unfold decode_run.
     apply loop_fuel; lia.
 Qed.
 
@@ -1982,7 +2000,8 @@ Proof.
         apply (IH rest ltac:(lia) cr d' x).
       * cbn [resumable r_verdict r_quirk r_fields r_dec r_left cr_after].
         destruct (is_need_more e && qnone q).
-        -- subst l. rewrite prepend_nil. rewrite run_cons. reflexivity.
+        -- subst l. rewrite prepend_nil. change ((ty :: t) ++ x) with (ty :: (t ++ x)).
+           rewrite run_cons. reflexivity.
         -- rewrite Hst. reflexivity.
       * rewrite Hst. reflexivity.
 Qed.
@@ -2083,21 +2102,22 @@ Proof.
       { destruct (cr_after true (r_fields R1)); [reflexivity|]. apply run_cr. rewrite Hq. discriminate. }
       assert (Hrec : same_result (decode_chunks_from hd D (r_left R1) (g :: more'))
                                  (decode_run hd (cr_after true (r_fields R1)) D T)).
-      { rewrite <- Hrun. rewrite <- HD at 2. rewrite <- decode_is_run. apply IH; [discriminate|].
-        rewrite decode_is_run, HD, Hrun. exact Hq. }
+      { assert (Hdec : decode hd D T = decode_run hd (cr_after true (r_fields R1)) D T).
+        { rewrite decode_is_run, HD. exact Hrun. }
+        rewrite <- Hdec. apply IH; [discriminate|]. fold C. fold T. rewrite Hdec. exact Hq. }
       destruct (r_verdict R1) as [|e| |]; try contradiction.
       * apply same_result_prepend. exact Hrec.
       * destruct e; try contradiction. apply same_result_prepend. exact Hrec.
     + (* a hard error in a fragment that is not the last: nothing more is fed *)
       cbn [set_left r_quirk] in Hq.
-      assert (Hstop : decode_chunks_from hd d carry (f :: g :: more') = R1 ->
-                      same_result R1 (set_left R1 (r_left R1 ++ C))).
-      { intros _. unfold same_result, set_left. cbn [r_fields r_verdict r_dec]. auto. }
-      unfold resumable in Eres. rewrite Hq in Eres. cbn [qnone] in Eres. rewrite andb_true_r in Eres.
-      destruct (r_verdict R1) as [|e| |] eqn:Ev; try discriminate.
-      * destruct e; try discriminate; unfold same_result, set_left; cbn [r_fields r_verdict r_dec]; auto.
-      * unfold same_result, set_left; cbn [r_fields r_verdict r_dec]; auto.
-      * unfold same_result, set_left; cbn [r_fields r_verdict r_dec]; auto.
+      assert (Hsame : same_result R1 (set_left R1 (r_left R1 ++ C))).
+      { unfold same_result, set_left. cbn [r_fields r_verdict r_dec]. auto. }
+      unfold resumable in Eres. destruct (r_verdict R1) as [|e| |] eqn:Ev.
+      * discriminate Eres.
+      * rewrite Hq in Eres. cbn [qnone] in Eres. rewrite andb_true_r in Eres.
+        destruct e; try discriminate Eres; exact Hsame.
+      * exact Hsame.
+      * exact Hsame.
 Qed.
 
 (* MAIN THEOREM 4.  A header block delivered in any number of fragments, cut anywhere, decoded the
